@@ -152,10 +152,12 @@ func NewSchema(config SchemaConfig) (Schema, error) {
 //Add Implementations at Runtime..
 func (gq *Schema) AddImplementation() error {
 
-	// Keep track of all implementations by interface name.
-	if gq.implementations == nil {
-		gq.implementations = map[string][]*Object{}
-	}
+	// Keep track of all implementations by interface name. The table is
+	// rebuilt from the whole type map (this also runs after AppendType), so
+	// every implementation is listed once, and what was derived from the
+	// old table is dropped.
+	gq.implementations = map[string][]*Object{}
+	gq.possibleTypeMap = nil
 	for _, ttype := range gq.typeMap {
 		if ttype, ok := ttype.(*Object); ok {
 			for _, iface := range ttype.Interfaces() {
